@@ -123,7 +123,8 @@ trait Client {
     fn rmdir(&self, p: u64, name: &str) -> R<()>;
     fn rename(&self, p: u64, name: &str, p2: u64, name2: &str) -> R<()>;
     fn open(&self, k: u64, flags: u32) -> R<Option<u64>>;
-    fn release(&self, k: u64, h: u64) -> R<()>;
+    /// flush = FUSE_RELEASE_FLUSH, flock = FUSE_RELEASE_FLOCK_UNLOCK (with a lock owner)
+    fn release(&self, k: u64, h: u64, flush: bool, flock: bool) -> R<()>;
     fn opendir(&self, k: u64) -> R<Option<u64>>;
     fn releasedir(&self, k: u64, h: u64) -> R<()>;
     fn read(&self, k: u64, h: u64, size: u32, off: u64) -> R<usize>;
@@ -275,8 +276,8 @@ where
     fn open(&self, k: u64, flags: u32) -> R<Option<u64>> {
         guard!(self.fs.open(&self.ctx(), k.into(), flags, 0)).map(|(h, _, _)| h.map(|x| x.into()))
     }
-    fn release(&self, k: u64, h: u64) -> R<()> {
-        guard!(self.fs.release(&self.ctx(), k.into(), 0, h.into(), false, false, None))
+    fn release(&self, k: u64, h: u64, flush: bool, flock: bool) -> R<()> {
+        guard!(self.fs.release(&self.ctx(), k.into(), 0, h.into(), flush, flock, if flock { Some(7) } else { None }))
     }
     fn opendir(&self, k: u64) -> R<Option<u64>> {
         guard!(self.fs.opendir(&self.ctx(), k.into(), libc::O_RDONLY as u32)).map(|(h, _)| h.map(|x| x.into()))
@@ -455,7 +456,7 @@ impl Client for Wire {
     fn open(&self, _: u64, _: u32) -> R<Option<u64>> {
         Err(libc::ENOSYS)
     }
-    fn release(&self, _: u64, _: u64) -> R<()> {
+    fn release(&self, _: u64, _: u64, _: bool, _: bool) -> R<()> {
         Err(libc::ENOSYS)
     }
     fn opendir(&self, k: u64) -> R<Option<u64>> {
@@ -808,6 +809,8 @@ struct World {
     last_listing: usize,
     /// offsets learned per directory number: name -> (off, index) and the order
     last_status: String,
+    /// per handle id: opened by opendir (released with releasedir) or by open/create (released with release)
+    hdir: Vec<bool>,
     /// id of the number the last entry-returning operation delivered (0: none)
     last_ino_ret: usize,
 }
@@ -1005,7 +1008,7 @@ impl World {
         let h = self.hval(o.h);
         let mut ev = json!({"e": "Op", "op": o.op, "p": o.p, "name": o.name, "p2": o.p2, "name2": o.name2, "h": o.h, "n": o.n,
             "items": o.items.iter().map(|(a, b)| json!([a, b])).collect::<Vec<_>>(), "size": o.size, "off": o.off.to_string(), "plus": o.plus,
-            "fail_at": o.fail_at, "status": "OK", "ino_ret": 0, "file_id": 0, "h_ret": 0, "af": -1});
+            "fail_at": o.fail_at, "status": "OK", "ino_ret": 0, "file_id": 0, "h_ret": 0, "af": -1, "flags": o.flags});
         let fa = o.fail_at;
         let st = |r: &R<()>| match r {
             Ok(()) => "OK".to_string(),
@@ -1045,8 +1048,9 @@ impl World {
                     Err(e) => ev["status"] = json!(st(&Err(e))),
                 }
             }
-            "release" => ev["status"] = json!(st(&self.cli.release(p, h))),
-            "releasedir" => ev["status"] = json!(st(&self.cli.releasedir(p, h))),
+            // flags: 1 = FUSE_RELEASE_FLUSH, 2 = FUSE_RELEASE_FLOCK_UNLOCK; fault injection applies to releases too
+            "release" => ev["status"] = json!(st(&self.injected(fa, |c| c.release(p, h, o.flags & 1 != 0, o.flags & 2 != 0)))),
+            "releasedir" => ev["status"] = json!(st(&self.injected(fa, |c| c.releasedir(p, h)))),
             "read" => ev["status"] = json!(st(&self.injected(fa, |c| c.read(p, h, o.size.max(1), 0)).map(|_| ()))),
             // o.off = file offset: beyond the end of the file the write extends it (refused with seal_size)
             "write" => ev["status"] = json!(st(&self.injected(fa, |c| c.write(p, h, b"xy", o.off)).map(|_| ()))),
@@ -1087,7 +1091,12 @@ impl World {
             }
         }
         if let Some(hh) = hret {
-            ev["h_ret"] = json!(self.h_id(hh));
+            let id = self.h_id(hh);
+            ev["h_ret"] = json!(id);
+            if self.hdir.len() < id {
+                self.hdir.resize(id, false);
+            }
+            self.hdir[id - 1] = o.op == "opendir";
         }
         self.last_status = ev["status"].as_str().unwrap_or("").to_string();
         self.last_ino_ret = ev["ino_ret"].as_u64().unwrap_or(0) as usize;
@@ -1304,9 +1313,11 @@ fn quiesce(w: &mut World) {
             }
             let k = w.num(id);
             let h = w.hval(hid);
-            let is_dir = w.is_dir_num(k);
-            let r = if is_dir { w.cli.releasedir(k, h) } else { w.cli.release(k, h) };
-            let r2 = if r.is_err() { if is_dir { w.cli.release(k, h) } else { w.cli.releasedir(k, h) } } else { r };
+            // the client releases a handle the way it opened it (OPENDIR -> RELEASEDIR, OPEN/CREATE -> RELEASE, also for a
+            // directory opened with OPEN); the other request only as a fall-back
+            let is_dir = w.hdir.get(hid - 1).copied().unwrap_or(false);
+            let r = if is_dir { w.cli.releasedir(k, h) } else { w.cli.release(k, h, false, false) };
+            let r2 = if r.is_err() && w.cfg.no_open != w.cfg.no_opendir { if is_dir { w.cli.release(k, h, false, false) } else { w.cli.releasedir(k, h) } } else { r };
             if r2.is_ok() {
                 let mut ev = json!({"e": "Op", "op": "release", "p": id, "name": "", "p2": 0, "name2": "", "h": hid, "n": 0, "items": [], "size": 0,
                     "off": "0", "plus": false, "fail_at": -1, "status": "OK", "ino_ret": 0, "file_id": 0, "h_ret": 0});
@@ -1352,6 +1363,11 @@ fn rand_res(w: &mut World, seed: u64, steps: u64) {
                 o.op = "open".into();
                 o.p = if !files.is_empty() && rng.chance(7, 8) { *rng.pick(&files) } else { rng.range(1, w.nums.len() as u64) as usize };
                 o.flags = libc::O_RDWR as u32;
+                if rng.chance(1, 5) {
+                    // OPEN (not OPENDIR) of a directory, read-only: listed through and released with RELEASE
+                    o.p = *rng.pick(&dirs);
+                    o.flags = libc::O_RDONLY as u32;
+                }
             }
             30..=35 => {
                 o.op = "create".into();
@@ -1369,7 +1385,7 @@ fn rand_res(w: &mut World, seed: u64, steps: u64) {
                 }
                 o.p = id;
                 o.h = hid;
-                o.op = if isd {
+                o.op = if isd || w.is_dir_num(w.num(id)) {
                     (*rng.pick(&["readdir", "readdir", "getattr_h"])).to_string()
                 } else {
                     (*rng.pick(&["read", "write", "flush", "fsync", "getattr_h"])).to_string()
@@ -1402,6 +1418,7 @@ fn rand_res(w: &mut World, seed: u64, steps: u64) {
                 o.op = if isd { "releasedir" } else { "release" }.into();
                 o.p = id;
                 o.h = hid;
+                o.flags = rng.below(4) as u32;
             }
             80..=89 => {
                 o.op = "forget".into();
@@ -1720,6 +1737,7 @@ fn run_scenario(s: &Scen, work: &Path, part: &str, seg: u64, abi: Option<&str>) 
         last_listing: 0,
         sparse_probes: matches!(s.kind, ScenKind::RandDir(..) | ScenKind::DirPattern(..)),
         last_status: String::new(),
+        hdir: Vec::new(),
         last_ino_ret: 0,
     };
     if let Some(k) = file_key(&root) {
